@@ -101,7 +101,9 @@ def EWD(
     # - key=lambda item: item[1] tells min to compare items based on their second element (the degree).
     # - [0] extracts the Vertex object (the first element) from the (Vertex, degree) tuple
     #   that corresponds to the minimum degree.
-    q = min(divisor.degrees.items(), key=lambda item: item[1])[0]
+    # Ties for the minimum are broken by vertex name so that the choice of q (and with it the
+    # q-reduced divisor) does not depend on set iteration order / PYTHONHASHSEED.
+    q = min(divisor.degrees.items(), key=lambda item: (item[1], item[0].name))[0]
 
     if visualizer:
         visualizer.add_step(divisor, CFOrientation(graph, []), q=q.name, description="Initial state with q selected.", source_function="EWD")
